@@ -47,6 +47,7 @@ type crashRun struct {
 	contEvery   int  // run a continuation on every n-th successfully recovered image (0 = never)
 	contMerge   bool // C07: continuation = deletes + a new Merge
 	nContRun    int
+	forceCont   bool // the image being checked must be continued whatever the sampling says
 	enabled     bool
 	// options
 	powerLoss   bool
@@ -257,6 +258,13 @@ func (c *crashRun) powerImage(ev mon.Event, files map[string]mon.FileState, cut 
 				fh.Close()
 			}
 			desc += fmt.Sprintf("%s zero[%d,%d) ", filepath.Base(p), L, f.Written)
+			if L > 0 && L < f.Written && L%vfmt.Block <= 8 {
+				// a pre-extended file cut at (or just behind) a block boundary: if the boundary
+				// lies inside a multi-block record, recovery has to rewind over chunks that are
+				// intact - always keep using such an image
+				c.forceCont = true
+				c.res.Add("power_loss_images_of_mapped_files_cut_at_a_block_boundary", 1)
+			}
 		} else {
 			os.Truncate(ip, L)
 			desc += fmt.Sprintf("%s cut %d->%d ", filepath.Base(p), f.Written, L)
@@ -265,6 +273,7 @@ func (c *crashRun) powerImage(ev mon.Event, files map[string]mon.FileState, cut 
 	d := c.durablePrefix(files, cut)
 	c.res.Add("images_power_loss", 1)
 	c.checkImage(img, "power-loss", ev, d, a, desc)
+	c.forceCont = false
 	os.RemoveAll(img)
 }
 
@@ -272,6 +281,7 @@ func (c *crashRun) powerImage(ev mon.Event, files map[string]mon.FileState, cut 
 func (c *crashRun) cutPoints(f mon.FileState) []int64 {
 	lo, hi := f.Durable, f.Written
 	set := map[int64]bool{lo: true}
+	var must []int64 // block boundaries strictly inside a record: never dropped by the sampling
 	add := func(x int64) {
 		if x >= lo && x <= hi {
 			set[x] = true
@@ -291,6 +301,9 @@ func (c *crashRun) cutPoints(f mon.FileState) []int64 {
 			var bounds []int64
 			for _, rc := range recs {
 				bounds = append(bounds, rc.Start, rc.End)
+				for b := (rc.Start/vfmt.Block + 1) * vfmt.Block; b < rc.End && len(must) < 4; b += vfmt.Block {
+					must = append(must, b)
+				}
 			}
 			// favour the most recent records and a seed-chosen few of the rest
 			for i := len(bounds) - 1; i >= 0 && i >= len(bounds)-6; i-- {
@@ -319,6 +332,11 @@ func (c *crashRun) cutPoints(f mon.FileState) []int64 {
 	if len(out) > c.maxCuts {
 		// keep the extremes and a seed-chosen subset
 		keep := []int64{out[0], out[len(out)-1]}
+		for _, b := range must {
+			if set[b] {
+				keep = append(keep, b)
+			}
+		}
 		for len(keep) < c.maxCuts {
 			keep = append(keep, out[c.r.Intn(len(out))])
 		}
@@ -501,12 +519,19 @@ func (c *crashRun) checkImage(img, kind string, ev mon.Event, dmin, a int, extra
 		// the recovered directory must keep accepting writes: checked for every 8th process-death
 		// image and for every 2nd image in which recovery had a cut tail to deal with (a
 		// fragment left behind there only shows at the restart after the next write)
+		// ... in the FIRST session after the crash for every second such image (a clean Close
+		// and a second recovery in between may repair what the first recovery left behind),
+		// after one clean restart for the others
 		c.nChecked++
-		every := 8
-		if kind == "power-loss" || kind == "partial-write" {
-			every = 2
+		due := c.nOpened%4 == 1 || c.nOpened%4 == 2 // nOpened counts images
+		if kind != "power-loss" && kind != "partial-write" {
+			due = c.nOpened%8 == 1 || c.nOpened%8 == 6
 		}
-		if round == 1 && c.nChecked%every == 0 {
+		writeRound := c.nOpened / 2 % 2
+		if due && round == writeRound {
+			if round == 0 {
+				c.res.Add("images_written_in_the_first_session_after_the_crash", 1)
+			}
 			k, v := []byte("~after-crash"), core.FillValue(uint64(c.nImages), 1+c.nImages%700)
 			var perr error
 			pv, _ := core.Safe(func() { perr = db.Put(k, v) })
@@ -558,7 +583,10 @@ func (c *crashRun) checkImage(img, kind string, ev mon.Event, dmin, a int, extra
 		if c.pending != nil {
 			every = max(1, every/4) // images taken inside a mutation (unsealed batches) matter most
 		}
-		if c.nCont%every == 0 {
+		if c.nCont%every == 0 || c.forceCont {
+			if c.forceCont {
+				c.res.Add("continuations_forced_for_block_boundary_cuts", 1)
+			}
 			c.continuation(img, m0, kind, ev, extra)
 		}
 	}
